@@ -35,7 +35,8 @@ LEAN_MODULES = {
     "C06": ["TFV.Properties.BinOps", "TFV.Properties.Runs", "TFV.Properties.Src.BinKernels", "TFV.Properties.Src.BinKernels2"],
     "C07": ["TFV.Properties.DE", "TFV.Properties.Runs", "TFV.Properties.Src.BoundsControl", "TFV.Properties.Src.Binomial", "TFV.Properties.Src.Donors"],
     "C08": ["TFV.Properties.Tree", "TFV.Properties.TreeCR", "TFV.Properties.Runs", "TFV.Properties.Src.Levels", "TFV.Properties.Src.Shrink", "TFV.Properties.Src.StandardX", "TFV.Properties.Src.OnePointGP", "TFV.Properties.Src.GrowMut", "TFV.Properties.Src.PointMut", "TFV.Properties.Src.Swap"],
-    "C09": ["TFV.Properties.Tree", "TFV.Properties.TreeCR", "TFV.Properties.Src.TreeIdx", "TFV.Properties.Src.CommonRegion", "TFV.Properties.Src.TreeMethods"],
+    "C09": ["TFV.Properties.Tree", "TFV.Properties.TreeCR", "TFV.Properties.Src.TreeIdx", "TFV.Properties.Src.CommonRegion", "TFV.Properties.Src.TreeMethods",
+            "TFV.Properties.Src.StandardX", "TFV.Properties.Src.OnePointGP"],
     "C10": ["TFV.Properties.Gray"],
     "C11": ["TFV.Properties.Select", "TFV.Properties.Src.Bsearch", "TFV.Properties.Src.Tournament", "TFV.Properties.Src.Sampling"],
     "C12": ["TFV.Properties.Net"],
@@ -65,7 +66,8 @@ SRC_KERNELS = {
             "Tree_get_levels", "Tree_get_max_level", "standard_crossover",
             "find_first_difference_between_two", "common_region_two_trees", "Tree_get_common_region", "one_point_crossoverGP", "growing_mutation", "Tree_get_args_id", "point_mutation", "swap_mutation"],
     "C09": ["find_end_subtree_from_i", "find_id_args_from_i", "find_first_difference_between_two", "common_region_two_trees",
-            "Tree_subtree_id", "Tree_subtree", "Tree_concat"],
+            "Tree_subtree_id", "Tree_subtree", "Tree_concat", "get_levels_tree_from_i", "Tree_get_levels", "Tree_get_max_level",
+            "standard_crossover", "Tree_get_common_region", "one_point_crossoverGP"],
     "C11": ["binary_search_interval", "check_for_value", "argsort_k", "tournament_selection", "proportional_selection", "rank_selection", "sattolo_shuffle", "random_sample", "random_weighted_sample"],
     "C16": ["get_n_jobs"],
     "C19": ["recall_counts", "precision_counts", "f1_counts"],
